@@ -85,7 +85,7 @@ func buildGoldenOpt(c *fw.Case, r *rand.Rand, minN, maxN int, indexOut bool) (*c
 	for attempt := 0; attempt < 200; attempt++ {
 		cc := *c
 		cc.R = r
-		opts := gen.PkgOpts{MaxMods: 6}
+		opts := gen.PkgOpts{MaxMods: 6, FSBProb: 0.15}
 		if indexOut {
 			opts.IndexProb = 0.5
 		}
@@ -160,6 +160,7 @@ func buildGoldenOpt(c *fw.Case, r *rand.Rand, minN, maxN int, indexOut bool) (*c
 						}
 					}
 					cl2 := sim.NewCluster(dir, s.seg, s.cl.Head)
+					cl2.FirstStreamable = s.fsb
 					if err := cl2.StandaloneJob(s.pkg.Modules, g.out, si, uint64(k)); err == nil {
 						for _, f := range cl2.ListCache() {
 							if strings.HasSuffix(f.Rel, ".partial.zst") {
@@ -180,6 +181,9 @@ func buildGoldenOpt(c *fw.Case, r *rand.Rand, minN, maxN int, indexOut bool) (*c
 		if len(g.names) < minN || (maxN > 0 && len(g.names) > maxN) {
 			s.close()
 			continue
+		}
+		if s.fsb != 0 {
+			c.Count("universes_on_a_chain_with_nonzero_first_streamable_block", 1)
 		}
 		return g, true
 	}
@@ -256,6 +260,7 @@ func runC07(c *fw.Case) {
 			}
 		}
 		cl := sim.NewCluster(dir, s.seg, s.cl.Head)
+		cl.FirstStreamable = s.fsb
 		req.Workers = 1 + c.R.Intn(4)
 		req.OrderSeed = 1 + c.R.Int63n(1<<40)
 		res := cl.Run(req)
@@ -345,6 +350,7 @@ func runC07(c *fw.Case) {
 	for _, k := range []int{1, 2 + c.R.Intn(6)} {
 		dir, _ := os.MkdirTemp(os.Getenv("VH_SCRATCH"), "int-")
 		cl := sim.NewCluster(dir, s.seg, s.cl.Head)
+		cl.FirstStreamable = s.fsb
 		rq := g.req
 		rq.CancelAfter = k
 		rq.OrderSeed = 1 + c.R.Int63n(1<<40)
